@@ -315,7 +315,7 @@ package corerad
 //@   requires P1: advOK(a) && ifiOK(cfg) && conn != nil
 //@   assigns new heap(ndp.RouterAdvertisement), new mem(ndp.Option), new heap(ndp.PrefixInformation), new heap(ndp.RouteInformation), new heap(ndp.RecursiveDNSServer), new heap(ndp.DNSSearchList), new heap(ndp.MTU), new heap(ndp.LinkLayerAddress), new mem(netip.Addr), new mem(netip.Prefix), new mem(system.IP), new mem(system.Route), new mem(config.Misconfiguration), ghost.clockRead, ghost.now, ghost.lastAddrs, ghost.lastRoutes, ghost.fwdVal, ghost.fwdName, ghost.fwdFresh, ghost.writes, ghost.lastWriteDst, ghost.lastWriteMsg
 //@   ensures S1 [C07]: cfg.UnicastOnly && addrIsMulticast(dst) ==> result == nil && ghost.writes == old(ghost.writes)
-//@   ensures S2 [C07,C08]: ghost.writes <= old(ghost.writes) + 1 && (ghost.writes == old(ghost.writes) + 1 ==> ghost.lastWriteDst == dst && isType(ghost.lastWriteMsg, "*ndp.RouterAdvertisement") && raHeaderFrom(as(ghost.lastWriteMsg, "*ndp.RouterAdvertisement"), cfg) && as(ghost.lastWriteMsg, "*ndp.RouterAdvertisement").RouterLifetime == ite(ghost.fwdVal, cfg.DefaultLifetime, 0))
+//@   ensures S2 [C06,C07,C08]: ghost.writes <= old(ghost.writes) + 1 && (ghost.writes == old(ghost.writes) + 1 ==> ghost.lastWriteDst == dst && isType(ghost.lastWriteMsg, "*ndp.RouterAdvertisement") && raHeaderFrom(as(ghost.lastWriteMsg, "*ndp.RouterAdvertisement"), cfg) && as(ghost.lastWriteMsg, "*ndp.RouterAdvertisement").RouterLifetime == ite(ghost.fwdVal, cfg.DefaultLifetime, 0))
 //@   ensures S3 [C07]: result == nil && !(cfg.UnicastOnly && addrIsMulticast(dst)) ==> ghost.writes == old(ghost.writes) + 1
 //@   opt safety [C07,C17]
 //@   opt frame [C07]
@@ -339,8 +339,8 @@ package corerad
 //@   assigns new heap(ndp.RouterAdvertisement), new mem(ndp.Option), new heap(ndp.PrefixInformation), new heap(ndp.RouteInformation), new heap(ndp.RecursiveDNSServer), new heap(ndp.DNSSearchList), new heap(ndp.MTU), new heap(ndp.LinkLayerAddress), new mem(netip.Addr), new mem(netip.Prefix), new mem(system.IP), new mem(system.Route), new mem(config.Misconfiguration), ghost.clockRead, ghost.lastAddrs, ghost.lastRoutes, ghost.fwdVal, ghost.fwdName, ghost.fwdFresh, ghost.writes, ghost.lastWriteDst, ghost.lastWriteMsg, ghost.txErrors, ghost.sentUnicast, ghost.sentMulticast, ghost.now
 //@   ensures W1 [C07]: result != nil ==> ghost.txErrors == old(ghost.txErrors) + 1 && ghost.sentUnicast == old(ghost.sentUnicast) && ghost.sentMulticast == old(ghost.sentMulticast)
 //@   ensures W2 [C07]: result == nil && !(a.cfg.UnicastOnly && addrIsMulticast(ip)) ==> ghost.txErrors == old(ghost.txErrors) && ghost.sentUnicast == old(ghost.sentUnicast) + b2i(!addrIsMulticast(ip)) && ghost.sentMulticast == old(ghost.sentMulticast) + b2i(addrIsMulticast(ip))
-//@   ensures W3 [C07]: ghost.writes <= old(ghost.writes) + 1 && (ghost.writes == old(ghost.writes) + 1 ==> ghost.lastWriteDst == ip)
-//@   ensures W4 [C07]: a.cfg.UnicastOnly && addrIsMulticast(ip) ==> ghost.writes == old(ghost.writes)
+//@   ensures W3 [C06,C07]: ghost.writes <= old(ghost.writes) + 1 && (ghost.writes == old(ghost.writes) + 1 ==> ghost.lastWriteDst == ip)
+//@   ensures W4 [C06,C07]: a.cfg.UnicastOnly && addrIsMulticast(ip) ==> ghost.writes == old(ghost.writes)
 //@   ensures W5 [C07]: result == nil ==> (ghost.sentUnicast - old(ghost.sentUnicast)) + (ghost.sentMulticast - old(ghost.sentMulticast)) == ghost.writes - old(ghost.writes)
 //@   opt safety [C07,C17]
 //@   opt frame [C07]
